@@ -98,11 +98,12 @@ def open_step(ck, prog, cfg):
     ck.require(n >= 1, tag + ': no Ok path')
 
 
-def expand_step(ck, prog, kind):
+def expand_step(ck, prog, kind, expanded=False):
     name = {'native': 'ureward', 'cw20': 'reward_token'}[kind]
     def body(it):
         c = it.ctx
-        st = flow_world(it, ('native', 'uwhale'), with_flow=(kind, name, False, 'creator'))
+        st = flow_world(it, ('native', 'uwhale'), with_flow=(kind, name, expanded, 'creator'))
+        if expanded: c.assume(st['h'][0] <= st['cur'] + 1)          # Inv: expansions are recorded for the next epoch at the latest
         X = c.sym('expand_by', 128); c.assume(X < 2**120)
         funds = []
         if kind == 'native': funds = [COIN(name, c.sym('attached', 128))]
@@ -110,10 +111,10 @@ def expand_step(ck, prog, kind):
         it.extra = dict(st=st, X=X)
         msg = it.mkv(IX, 'ExpandFlow', flow_identifier=it.mkv(I + 'FlowIdentifier', 'Id', st['fid']), end_epoch=NONE(), flow_asset=masset(it, kind, name, X))
         return enter(it, 'incentive', 'execute', mk_env(it, 10**18), mk_info('anyone', funds), msg)
-    tag = 'expand_flow.' + kind[0]
+    tag = 'expand_flow.' + kind[0] + ('.expanded' if expanded else '')
     n = 0
     for p in ck.explore(prog, body, tag):
-        ck.sample(dict(entry='incentive.execute(expand_flow)', flow_asset=kind, outcome=p.short()))
+        ck.sample(dict(entry='incentive.execute(expand_flow)', flow_asset=kind, expanded_before=expanded, outcome=p.short()))
         if not p.ok: continue
         n += 1
         st = p.extra['st']; X = p.extra['X']
@@ -123,20 +124,25 @@ def expand_step(ck, prog, kind):
             ck.oblige('C12.expand.kept.' + tag, p, True, 'the flow is still stored'); continue
         hist = fl[0].fields[9].pairs
         new_total = hist[-1][1].fields[0].fields[0] if hist else fl[0].fields[3].fields[1].fields[0]
-        reset = st['f_end'] - st['f_start'] > 180          # FLOW_EXPANSION_LIMIT: the flow is re-based ("flow reset")
+        reset = (st['h'][2] if expanded else st['f_end']) - st['f_start'] > 180          # FLOW_EXPANSION_LIMIT on the flow's current (expanded) end epoch: the flow is re-based ("flow reset")
         keep = z3.Not(reset)
-        grew = new_total - st['f_amount']
-        rebased = z3.If(X >= st['f_claimed'], X - st['f_claimed'], 0) + X        # exactly the known behaviour
-        ck.oblige('C12.expand.reset.' + tag, p, z3.And(reset, new_total != rebased, new_total != (st['f_amount'] - st['f_claimed']) + X), 're-based total = original - claimed + expansion')
-        ck.oblige('C12.expand.reset.accounting.' + tag, p, z3.And(reset, new_total == rebased, new_total != (st['f_amount'] - st['f_claimed']) + X),
-                  'a flow longer than 180 epochs is re-based on expansion; with no earlier expansion the re-based amount is taken from the expanding asset instead of the flow\'s own amount',
-                  site='expand_flow reset default')
+        funded_before = st['expanded_total']
+        grew = new_total - funded_before
+        if expanded:
+            ck.oblige('C12.expand.reset.' + tag, p, z3.And(reset, new_total != (funded_before - st['f_claimed']) + X), 're-based total = funded (latest expansion entry, whichever epoch it is recorded for) - claimed + expansion')
+            ck.oblige('C12.expand.reset.fresh.' + tag, p, z3.And(reset, z3.Or(len(hist) != 1, fl[0].fields[4].fields[0] != 0)), 'a re-based flow starts with a single history entry and nothing claimed')
+        else:
+            rebased = z3.If(X >= st['f_claimed'], X - st['f_claimed'], 0) + X        # exactly the known behaviour
+            ck.oblige('C12.expand.reset.' + tag, p, z3.And(reset, new_total != rebased, new_total != (st['f_amount'] - st['f_claimed']) + X), 're-based total = original - claimed + expansion')
+            ck.oblige('C12.expand.reset.accounting.' + tag, p, z3.And(reset, new_total == rebased, new_total != (st['f_amount'] - st['f_claimed']) + X),
+                      'a flow longer than 180 epochs is re-based on expansion; with no earlier expansion the re-based amount is taken from the expanding asset instead of the flow\'s own amount',
+                      site='expand_flow reset default')
         if kind == 'native':
             recv = z3.Int('attached')
-            ck.oblige('C12.expand.funded_eq_received.n', p, z3.And(grew != recv, keep), 'expansion grows the funded amount by exactly the attached funds')
+            ck.oblige('C12.expand.funded_eq_received.n' + ('.expanded' if expanded else ''), p, z3.And(grew != recv, keep), 'expansion grows the funded amount by exactly the attached funds')
         else:
             recv = total(eff, 'pull', name, lambda e: same(e.dst, INC))
-            ck.oblige('C12.expand.funded_eq_received.c', p, z3.And(keep, grew != recv, z3.Not(z3.And(recv == 0, grew == X))), 'expansion grows the funded amount by exactly what was pulled')
+            ck.oblige('C12.expand.funded_eq_received.c' + ('.expanded' if expanded else ''), p, z3.And(keep, grew != recv, z3.Not(z3.And(recv == 0, grew == X))), 'expansion grows the funded amount by exactly what was pulled')
             ck.oblige('C12.expand.funded_eq_received.c.no_transfer', p, z3.And(keep, recv == 0, grew == X, X != 0),
                       'cw20 expansion: the TransferFrom is built but never added to the response, so the flow grows without receiving tokens', site='expand_flow cw20 TransferFrom dropped')
         ck.oblige('C12.expand.amount.' + tag, p, z3.And(grew != X, keep), 'the recorded total grows by the stated amount')
@@ -183,7 +189,7 @@ def main():
     prog = ck.program('incentive', 'white_whale_std')
     for cfg in CFGS: open_step(ck, prog, cfg)
     for kind in ('native', 'cw20'):
-        expand_step(ck, prog, kind)
+        expand_step(ck, prog, kind); expand_step(ck, prog, kind, True)
         close_step(ck, prog, kind, False); close_step(ck, prog, kind, True)
     try:
         import c12_claim
